@@ -120,3 +120,10 @@ impl Drop for ChannelGuard {
         self.0.close();
     }
 }
+
+// Verification hook (inert unless built by Kani with the
+// `uazu-stakker-verif` feature): harness module kept in /verif
+#[cfg(all(kani, feature = "uazu-stakker-verif"))]
+mod uazu_stakker_verif {
+    include!(concat!(env!("UAZU_STAKKER_VERIF"), "/incrate/channel.rs"));
+}
